@@ -46,6 +46,7 @@ def to_dict(sheets, with_headers=True, fallback_form_name=None, keep_blank_rows=
         if key not in KNOWN_SHEETS:
             continue
         out = []
+        hdrs = [h if (h is None or isinstance(h, str)) else canon_text(h) for h in hdrs]  # a typed header cell is read as its canonical text too
         for r in rows:
             rd = {}
             for h, c in zip(hdrs, r):
